@@ -94,8 +94,14 @@ def run_identity(ctx, rng):
     # affinity in h, linearity in lambda
     h1, h2 = rng.random(n), rng.random(n)
     a = float(rng.random())
+    # half of the time the predictors are closures over stored prediction vectors (`moment.gamma(lambda X: y_pred)`): the same
+    # float64 array objects are handed to gamma and afterwards used for the right-hand side, as a caller would
+    pcont = "same_array" if rng.random() < 0.5 else "ndarray"
+    h1_before, h2_before = h1.copy(), h2.copy()
+    g1, g2 = moment.gamma(ML.FixedPredictor(h1, pcont)), moment.gamma(ML.FixedPredictor(h2, pcont))
+    ctx.check(bool(np.array_equal(h1, h1_before) and np.array_equal(h2, h2_before)), "gamma_overwrites_the_prediction_vector_it_was_given",
+              before=h1_before[:6].tolist(), after=h1[:6].tolist(), wit=wit)
     ga = moment.gamma(ML.FixedPredictor(a * h1 + (1 - a) * h2))
-    g1, g2 = moment.gamma(ML.FixedPredictor(h1)), moment.gamma(ML.FixedPredictor(h2))
     ctx.ev("affinity_checks")
     ctx.check(bool(np.allclose(np.asarray(ga, float), a * np.asarray(g1, float) + (1 - a) * np.asarray(g2, float), rtol=1e-9, atol=1e-12)),
               "gamma_is_not_affine_in_the_predictor", wit=wit)
